@@ -60,6 +60,22 @@ DESC = {
     "C18-2": "ComplexArrayVSpace.randn draws purely real directions",
     "C19-1": "new_trace resets the depth to -1 on any exception",
     "C19-2": "backward pass keeps pending cotangents on the nodes (stale after a failed pass)",
+    "C06-3": "stack() normalises a negative axis with the inputs' rank instead of the result's",
+    "C06-4": "ArrayBox.__matmul__/__rmatmul__ dispatch to dot instead of matmul (right operand of rank >= 3)",
+    "C11-3": "getitem VJP sends every non-top-level index array to a buffered `A[idx] += g` (repeats inside tuples)",
+    "C11-4": "add_outgrads skips the defensive copy before a sparse scatter for real arrays (dense-then-indexed, shared cotangent)",
+    "C13-3": "real inner product wrapped in float(): longdouble spaces lose range and precision",
+    "C13-4": "VSpace.mut_add(None, x) returns a shallow copy (containers share their leaves)",
+    "C14-3": "make_vjp's zero branch builds the zeros once and returns the same object from every call",
+    "C14-4": "no-trace primitives are re-dispatched without their keyword arguments",
+    "C15-3": "rfft odd-length guard only runs when the length is inferred (explicit odd n silently wrong)",
+    "C15-4": "diff VJP zero shortcut off by one (same site as C01-3)",
+    "C16-3": "jacobian 'single output' fast path drops the output axes of size-1 outputs of rank >= 1",
+    "C16-4": "deriv passes the scalar 1.0 as tangent instead of ones of the argument's space",
+    "C17-3": "defvjp's >=3-argument path looks rules up by position among the differentiated arguments",
+    "C17-4": "translate_jvp(None) zero of the argument's space instead of the output's",
+    "C19-3": "trace() compares the output's level with trace_stack.top (wrong after a leaked level from a caught failure)",
+    "C19-4": "np.gradient VJP keeps a generator over the axes (second backward pass returns zeros)",
     "C20-3": "TraceStack.__init__ with a mutable default list shared by all threads",
     "C20-4": "trace() saves/restores the depth through a module-level list shared by all threads",
 }
@@ -67,7 +83,7 @@ DESC = {
 ALSO = {  # other quick checks observed to report the change in targeted runs (not an exhaustive matrix)
     "C03-1": ["C08", "C14"], "C04-1": ["C02"], "C04-2": ["C02"], "C05-1": ["C01"], "C05-2": ["C01", "C14", "C17"], "C06-2": ["C12"],
     "C07-1": ["C01"], "C07-2": ["C16"], "C09-1": ["C01"], "C09-2": ["C05"], "C14-1": ["C08"], "C14-2": ["C01", "C05", "C17"],
-    "C15-2": ["C17"], "C17-1": ["C01", "C14"], "C03-2": ["C17"], "C01-2": ["C09"], "C05-4": ["C12"], "C03-3": ["C11"], "C07-3": ["C03", "C08", "C14"],
+    "C15-2": ["C17"], "C17-1": ["C01", "C14"], "C03-2": ["C17"], "C01-2": ["C09"], "C05-4": ["C12"], "C03-3": ["C11"], "C07-3": ["C03", "C08", "C14"], "C19-4": ["C10"], "C11-4": ["C10"], "C15-4": ["C01"], "C13-4": ["C10"],
 }
 
 
